@@ -11,12 +11,16 @@ IDS=${@:-$(ls seeded)}
 for ID in $IDS; do
   D=seeded/$ID; P=${ID%-*}
   [ -f $D/patch.diff ] || continue
+  # patch.diff is the change as its author wrote it; patch.rebased.diff the same change carried over fix: commits
+  # that moved its context (preferred when present, unless the change is pinned to a base commit)
+  PATCH=$D/patch.diff
   DEMO=$(ls $D/demo.py $D/demo 2>/dev/null | head -1)
   # a change whose mechanism was removed by a later fix: is verified against the commit it was written for
   BASE=$(python3 -c "import json,sys; print(json.load(open('$D/meta.json')).get('base_commit',''))" 2>/dev/null)
   git -C "$WT/repo" checkout -q --detach ${BASE:-$(git -C /repo rev-parse HEAD)}
+  [ -z "$BASE" ] && [ -f $D/patch.rebased.diff ] && PATCH=$D/patch.rebased.diff
   ( cd $D && timeout 600 /venv/bin/python $(basename $DEMO) "$WT/repo" >"$WT/clean.log" 2>&1 ); C=$?
-  if ! git -C "$WT/repo" apply "$PWD/$D/patch.diff" 2>/dev/null; then echo "$ID: PATCH DOES NOT APPLY"; continue; fi
+  if ! git -C "$WT/repo" apply "$PWD/$PATCH" 2>/dev/null; then echo "$ID: PATCH DOES NOT APPLY"; continue; fi
   ( cd $D && timeout 600 /venv/bin/python $(basename $DEMO) "$WT/repo" >"$WT/mut.log" 2>&1 ); M=$?
   OUT=$(VERIF_REPO="$WT/repo" ./check $P quick 2>&1 | grep -v "^KNOWN-FINDING"); V=$?
   LINE=$(echo "$OUT" | grep "^VIOLATION" | head -1)
